@@ -73,6 +73,16 @@ def get_strategy_base():
                  None if self.hp is None else tuple(sorted((k, C.fnum(v)) for k, v in self.hp.items())),
                  extra)
             c.count('hooks')
+            if c.scratch.get('observe_env'):
+                # everything that could carry state from an earlier session of the same process (C11)
+                try:
+                    sv = self.shared_vars
+                    c.ev('env', self._sim_route, self.exchange_type, int(self.leverage), C.fnum(self.fee_rate),
+                         tuple(sorted((str(k), repr(v)) for k, v in sv.items())), len(store.logs.info) if hasattr(store.logs, 'info') else -1)
+                    if hook == 'before' and self.index % 7 == 0:
+                        sv[f'r{self._sim_route}'] = (int(self.index), self.symbol)
+                except Exception as e:
+                    c.ev('env', self._sim_route, 'raised', type(e).__name__)
             c.dispatch('hook', self, hook, extra)
             fp = self._prog.get('raise_at')
             if fp and fp[0] == hook and int(store.app.time) >= fp[1] and not c.scratch.get('fault_fired'):
@@ -149,6 +159,10 @@ def get_strategy_base():
             styles = pr['entry_styles']
             style = styles[int(self._uu('should', 'style', 0.0) * len(styles)) % len(styles)]
             frac = pr['size_frac'] * (0.3 + 0.7 * self._uu('should', 'frac', 1.0))
+            oa = pr.get('overspend_at')
+            if oa is not None and int(store.app.time) >= oa:
+                frac = 6.0     # fault plan: ask for an order the account cannot afford (a legal rejection aborts the session)
+                self._c.count('fault_overspend_requested')
             dist = pr['entry_dist']
             rows = []   # (weight, price)
             if style == 'market':
